@@ -920,6 +920,61 @@ func TestVerifC12(t *testing.T) {
 		c12CheckSet(c, rs, true, 0)
 	})
 
+	// very many three-byte ranges with pairwise different last-byte intervals:
+	// the lookup structure has one node group per range, tens of thousands in
+	// all.  The codec may refuse such a set, but what it accepts it must decode.
+	manySizes := []int{4000, 16319, 16320, 16321, 20000, 30000}
+	r.Phase("many-ranges", len(manySizes), func(c *kit.Case) {
+		n := manySizes[c.Index]
+		type box struct{ a, b, lo, hi byte }
+		boxes := make([]box, n)
+		csr := make(charcode.CodeSpaceRange, n)
+		lo, hi := 1, 1
+		for k := range boxes {
+			boxes[k] = box{byte(k / 128), byte(k % 128), byte(lo), byte(hi)}
+			csr[k] = charcode.Range{Low: []byte{boxes[k].a, boxes[k].b, byte(lo)}, High: []byte{boxes[k].a, boxes[k].b, byte(hi)}}
+			if hi++; hi > 254 {
+				lo++
+				hi = lo
+			}
+		}
+		var codec *charcode.Codec
+		var err error
+		func() {
+			defer func() {
+				if e := recover(); e != nil {
+					c.Violationf("many-ranges/panic", "NewCodec with %d three-byte ranges panics: %v", n, e)
+				}
+			}()
+			codec, err = charcode.NewCodec(csr)
+		}()
+		c.Distinct(fmt.Sprint("many", n))
+		if codec == nil {
+			if err != nil {
+				c.Inc("large_sets_refused")
+			}
+			return
+		}
+		c.Inc("large_sets_accepted")
+		for k, bx := range boxes {
+			if k%7 != c.Index%7 && k < n-200 {
+				continue
+			}
+			for _, probe := range []struct {
+				last  int
+				valid bool
+			}{{int(bx.lo), true}, {int(bx.hi), true}, {int(bx.lo) - 1, false}, {int(bx.hi) + 1, false}} {
+				in := []byte{bx.a, bx.b, byte(probe.last), 0x41}
+				_, consumed, valid := codec.Decode(in)
+				if valid != probe.valid || (valid && consumed != 3) || consumed < 1 || consumed > len(in) {
+					c.Violationf("many-ranges/decode", "%d three-byte ranges, range %d is <%02X%02X%02X>-<%02X%02X%02X>: Decode(<%X>) = consumed %d valid %v", n, k, bx.a, bx.b, bx.lo, bx.a, bx.b, bx.hi, in[:3], consumed, valid)
+					return
+				}
+				c.Inc("large_set_probes")
+			}
+		}
+	})
+
 	r.Phase("random", r.N(50000, 5000000), func(c *kit.Case) {
 		rs, mode := c12RandomSet(c.Rng)
 		c.R.Seen("random_modes", mode)
